@@ -295,7 +295,7 @@ func run(c Case) vt.Verdict {
 		}
 		spec.Config = ci
 	}
-	tok := scen.NewTokens(2 + c.N)
+	tok := scen.NewTokens(4 + c.N)
 	call := client.NewCall(0, tok, 1, spec)
 	// every handler of the subject call is blocked while the call is made
 	for s := 0; s < c.N; s++ {
@@ -526,13 +526,63 @@ func run(c Case) vt.Verdict {
 	if c.Call.NoSendWait {
 		classes = append(classes, "no-send-waiting")
 	}
+	// The node that could not be reached comes up (its server starts, the dial is no longer
+	// blocked): the same kind of one-way call, made again, must now be delivered to it as well,
+	// whether or not the call waits for the send.
+	if oneWay && blockedSrv >= 0 {
+		cl.Start(blockedSrv)
+		tok2 := tok + 2 + uint64(c.N)
+		call2 := client.NewCall(60, tok2, 60, spec)
+		go call2.Issue()
+		if r, _ := scen.Await(call2.DoneCh(), scen.B); r != scen.Done {
+			return vt.Verdict{OK: true, Inconclusive: true, Msg: "the second one-way call did not return in time"}
+		}
+		want := map[int]bool{}
+		for _, s := range call2.Targets {
+			want[s] = true
+		}
+		arrived := make(chan struct{})
+		go func() {
+			if cl.Log.WaitFor(3*scen.B, func(evs []scen.Event) bool {
+				n := 0
+				for _, e := range evs {
+					if e.Kind == "enter" && e.Token == tok2 && want[e.Server] {
+						n++
+					}
+				}
+				return n >= len(want)
+			}) {
+				close(arrived)
+			}
+		}()
+		if r, sig := scen.Await(arrived, scen.B); r == scen.Hung {
+			got := map[int]bool{}
+			for _, e := range cl.Log.Snapshot() {
+				if e.Kind == "enter" && e.Token == tok2 {
+					got[e.Server] = true
+				}
+			}
+			var missing []int
+			for s := range want {
+				if !got[s] {
+					missing = append(missing, s)
+				}
+			}
+			sort.Ints(missing)
+			return vt.Verdict{OK: false, Key: k("late-node-not-delivered"), History: cl.Log.Snapshot(),
+				Msg: fmt.Sprintf("%s (no_send_wait=%v): after the unreachable server %d had come up, a second call did not reach server(s) %v within 2x%v: %s", kind, c.Call.NoSendWait, blockedSrv, missing, scen.B, sig)}
+		} else if r == scen.Late {
+			return vt.Verdict{OK: true, Inconclusive: true, Msg: "second call delivered late"}
+		}
+		classes = append(classes, "late-node-second-call")
+	}
 	return vt.Pass(nontrivial, classes...)
 }
 
 func TestProp(t *testing.T) {
 	vt.Main(t, vt.Spec[Case]{
 		ID:           "C06",
-		Rule:         "rapid-generated cases: configuration of 1-7 nodes, a call kind among all that take a per-node function plus plain quorum/async/correctable calls, multicast and unicast; the per-node function as a table node -> skip | tag | node-specific payload (skip none/some/all, distinct payloads per node); WithNoSendWaiting on/off; every handler blocked while the call is made; optionally an idle target whose dial blocks; oracle: delivery multiset per server equals f(request, id) exactly once for targeted reachable nodes and nothing for skipped ones (after a fence RPC per node), one-way calls return while all handlers are blocked (and while the dial is blocked with no-send-waiting), two-way calls complete by the non-skipped nodes alone with Incomplete accounting over the non-skipped nodes; a second case shape (1 in 6): K one-way messages with contexts that never end are sent to nodes whose handlers block without Release, then 1-24 other calls of 6 kinds on the same nodes end by their context (already ended when the call is made; or, 1 in 8, large requests cancelled microseconds after being issued), then the handlers are released and a fence RPC per node completes - every message must have been delivered exactly once; non-trivial = a per-node function with a skip or two distinct per-node messages, or a one-way call behind blocked handlers, or any case of the second shape",
+		Rule:         "rapid-generated cases: configuration of 1-7 nodes, a call kind among all that take a per-node function plus plain quorum/async/correctable calls, multicast and unicast; the per-node function as a table node -> skip | tag | node-specific payload (skip none/some/all, distinct payloads per node); WithNoSendWaiting on/off; every handler blocked while the call is made; optionally an idle target whose dial blocks (and whose server then starts: a second one-way call of the same kind must reach it too); oracle: delivery multiset per server equals f(request, id) exactly once for targeted reachable nodes and nothing for skipped ones (after a fence RPC per node), one-way calls return while all handlers are blocked (and while the dial is blocked with no-send-waiting), two-way calls complete by the non-skipped nodes alone with Incomplete accounting over the non-skipped nodes; a second case shape (1 in 6): K one-way messages with contexts that never end are sent to nodes whose handlers block without Release, then 1-24 other calls of 6 kinds on the same nodes end by their context (already ended when the call is made; or, 1 in 8, large requests cancelled microseconds after being issued), then the handlers are released and a fence RPC per node completes - every message must have been delivered exactly once; non-trivial = a per-node function with a skip or two distinct per-node messages, or a one-way call behind blocked handlers, or any case of the second shape",
 		Gen:          gen,
 		Run:          run,
 		TrackCurrent: true,
